@@ -102,8 +102,8 @@ template <typename T, typename E> struct kit<T, E, 0>
     static sz numbers() { return 2; }
     template <typename CB> static C mpi(std::vector<sz> const& calls, bool dist, CB cb)
     {
-        return dist ? hep::mpi_plain(MPI_COMM_WORLD, hep::make_integrand<T>(pfn<T>(), 2, hep::make_dist_params<T>(3, T(0), T(1), "d"), hep::distribution_parameters<T>(2, 2, T(0), T(1), T(0), T(1), "e")), calls, fresh(), cb)
-                    : hep::mpi_plain(MPI_COMM_WORLD, hep::make_integrand<T>(pfn<T>(), 2), calls, fresh(), cb);
+        return dist ? hep::mpi_plain(vf::current_env()->comm(), hep::make_integrand<T>(pfn<T>(), 2, hep::make_dist_params<T>(3, T(0), T(1), "d"), hep::distribution_parameters<T>(2, 2, T(0), T(1), T(0), T(1), "e")), calls, fresh(), cb)
+                    : hep::mpi_plain(vf::current_env()->comm(), hep::make_integrand<T>(pfn<T>(), 2), calls, fresh(), cb);
     }
     static R serial(R const&, sz calls, bool dist, E& gen)
     {
@@ -121,8 +121,8 @@ template <typename T, typename E> struct kit<T, E, 1>
     static sz numbers() { return 2; }
     template <typename CB> static C mpi(std::vector<sz> const& calls, bool dist, CB cb)
     {
-        return dist ? hep::mpi_vegas(MPI_COMM_WORLD, hep::make_integrand<T>(pfn<T>(), 2, hep::make_dist_params<T>(3, T(0), T(1), "d"), hep::distribution_parameters<T>(2, 2, T(0), T(1), T(0), T(1), "e")), calls, fresh(), cb)
-                    : hep::mpi_vegas(MPI_COMM_WORLD, hep::make_integrand<T>(pfn<T>(), 2), calls, fresh(), cb);
+        return dist ? hep::mpi_vegas(vf::current_env()->comm(), hep::make_integrand<T>(pfn<T>(), 2, hep::make_dist_params<T>(3, T(0), T(1), "d"), hep::distribution_parameters<T>(2, 2, T(0), T(1), T(0), T(1), "e")), calls, fresh(), cb)
+                    : hep::mpi_vegas(vf::current_env()->comm(), hep::make_integrand<T>(pfn<T>(), 2), calls, fresh(), cb);
     }
     static R serial(R const& like, sz calls, bool dist, E& gen)
     {
@@ -159,8 +159,8 @@ template <typename T, typename E, int K> struct wide_kit
     static C fresh() { E g; g.seed(5); return hep::make_multi_channel_chkpt<T, E>(T(0.01L), T(0.5), g); }
     template <typename CB> static C mpi(std::vector<sz> const& calls, bool dist, CB cb)
     {
-        return dist ? hep::mpi_multi_channel(MPI_COMM_WORLD, hep::make_multi_channel_integrand<T>(pfn<T>(), 1, wide_map<T>{channels()}, mapdims(), channels(), hep::make_dist_params<T>(3, T(0), T(1), "d"), hep::distribution_parameters<T>(2, 2, T(0), T(1), T(0), T(1), "e")), calls, fresh(), cb)
-                    : hep::mpi_multi_channel(MPI_COMM_WORLD, hep::make_multi_channel_integrand<T>(pfn<T>(), 1, wide_map<T>{channels()}, mapdims(), channels()), calls, fresh(), cb);
+        return dist ? hep::mpi_multi_channel(vf::current_env()->comm(), hep::make_multi_channel_integrand<T>(pfn<T>(), 1, wide_map<T>{channels()}, mapdims(), channels(), hep::make_dist_params<T>(3, T(0), T(1), "d"), hep::distribution_parameters<T>(2, 2, T(0), T(1), T(0), T(1), "e")), calls, fresh(), cb)
+                    : hep::mpi_multi_channel(vf::current_env()->comm(), hep::make_multi_channel_integrand<T>(pfn<T>(), 1, wide_map<T>{channels()}, mapdims(), channels()), calls, fresh(), cb);
     }
     static R serial(R const& like, sz calls, bool dist, E& gen)
     {
@@ -181,8 +181,8 @@ template <typename T, typename E> struct kit<T, E, 2>
     static vf::pl_map<T> map() { vf::pl_map<T> m; m.split = {T(0.25), T(0.5), T(0.75)}; return m; }
     template <typename CB> static C mpi(std::vector<sz> const& calls, bool dist, CB cb)
     {
-        return dist ? hep::mpi_multi_channel(MPI_COMM_WORLD, hep::make_multi_channel_integrand<T>(pfn<T>(), 1, map(), 1, 3, hep::make_dist_params<T>(3, T(0), T(1), "d"), hep::distribution_parameters<T>(2, 2, T(0), T(1), T(0), T(1), "e")), calls, fresh(), cb)
-                    : hep::mpi_multi_channel(MPI_COMM_WORLD, hep::make_multi_channel_integrand<T>(pfn<T>(), 1, map(), 1, 3), calls, fresh(), cb);
+        return dist ? hep::mpi_multi_channel(vf::current_env()->comm(), hep::make_multi_channel_integrand<T>(pfn<T>(), 1, map(), 1, 3, hep::make_dist_params<T>(3, T(0), T(1), "d"), hep::distribution_parameters<T>(2, 2, T(0), T(1), T(0), T(1), "e")), calls, fresh(), cb)
+                    : hep::mpi_multi_channel(vf::current_env()->comm(), hep::make_multi_channel_integrand<T>(pfn<T>(), 1, map(), 1, 3), calls, fresh(), cb);
     }
     static R serial(R const& like, sz calls, bool dist, E& gen)
     {
@@ -370,6 +370,7 @@ static void configs(report& r, bool thorough)
             g_fn = fn;
             runner<T, E, K> rn{r, id, lists[li], dist != 0, target, world, fn == 0 && K < 2};
             vf::mpi_env env(world);
+            env.subgroup = (li + world) % 2 == 1;     // half of the configurations run on a sub-communicator of a larger world
             std::vector<vf::bytes> results;
             rn.explore(env, results, order_mode);
             r.count("executions", rn.executions);
